@@ -272,7 +272,8 @@ Definition ncp_act (i : nat) (n : ncp) (a : act) (m : mach) : mach :=
   | Tlu =>
     match n with
     | Ipcp => check_open i (upd (fun s => set_ipcp_open true
-                (set_addr (static_attr s) (acked4 s) (assigned4 s) (acked4 s) (alloc_pool s) s)) m)   (* onIPCPUp *)
+                (set_addr (static_attr s) (match acked4 s with ANone => cur4 s | a => a end)
+                          (assigned4 s) (acked4 s) (alloc_pool s) s)) m)                               (* onIPCPUp *)
     | Ip6cp => check_open i (upd (set_ip6cp_open true) m)                                             (* onIPv6CPUp *)
     end
   | Tld => match n with Ipcp => upd (set_ipcp_open false) m | Ip6cp => upd (set_ip6cp_open false) m end
@@ -294,11 +295,15 @@ Definition start_ncp (v : vr) (i : nat) (m : mach) : mach :=
       end
     | _ => m        (* ReserveIP of an address this session already holds, or of one outside every pool: no effect *)
     end in
-  let m2 := upd (fun s => match cur4 s with
-                          | ANone => set_addr (static_attr s) AFallback (assigned4 s) (acked4 s) (alloc_pool s) s
-                          | _ => s end) m1 in
-  let m3 := upd (fun s => set_addr (static_attr s) (cur4 s) (cur4 s) (acked4 s) (alloc_pool s) s) m2 in  (* SetPeerAddress *)
-  let m4 := ncp_apply i Ipcp (fsm_open (vrfc v)) (ncp_apply i Ipcp fsm_up m3) in
+  (* no constant fall-back address any more (24c9504): without a usable IPv4 address IPCP is not started and
+     IPv4Address stays nil; IPv6CP is started in any case *)
+  let m4 :=
+    match cur4 (ms m1) with
+    | ANone => m1
+    | _ =>
+      let m3 := upd (fun s => set_addr (static_attr s) (cur4 s) (cur4 s) (acked4 s) (alloc_pool s) s) m1 in  (* SetPeerAddress *)
+      ncp_apply i Ipcp (fsm_open (vrfc v)) (ncp_apply i Ipcp fsm_up m3)
+    end in
   ncp_apply i Ip6cp (fsm_open (vrfc v)) (ncp_apply i Ip6cp fsm_up m4).
 
 (* session.go onLCPUp / onLCPDown *)
@@ -502,7 +507,7 @@ Definition mon_in (i : nat) (e : event) (mn : mon) : mon :=
   | EvOpen j | EvPadt j | EvDead j => if Nat.eqb i j then mon0 else mn
   | EvAAA k a =>
     match mcur mn with
-    | Some k' => if Nat.eqb k k' then mkMon None (if allowed_of a then true else mok mn) else mn
+    | Some k' => if Nat.eqb k k' && allowed_of a then mkMon (mcur mn) true else mn
     | None => mn
     end
   | _ => mn
@@ -513,6 +518,11 @@ Definition mon_out (o : out) (mn : mon) : option mon :=
   | GLcpDown => Some mon0
   | OReq k => Some (mkMon (Some k) (mok mn))
   | _ => if service o then (if mok mn then Some mn else None) else Some mn
+  end.
+Fixpoint mon_l (l : list out) (mn : mon) : option mon :=
+  match l with
+  | [] => Some mn
+  | o :: r => match mon_out o mn with Some mn' => mon_l r mn' | None => None end
   end.
 Fixpoint mon_outs (i : nat) (l : list (nat * out)) (mn : mon) : option mon :=
   match l with
@@ -534,3 +544,14 @@ Fixpoint mon_run (i : nat) (tr : list (event * list (nat * out))) (mn : mon) : o
 (* what a never-authorised subscriber may hold: nothing *)
 Definition holds_nothing (s : sess) : bool :=
   negb (alloc_pool s) && addr_eqb (cur4 s) ANone && negb (in_net (ph s)).
+
+(* ------------------------------------------------------------------ *)
+(* Part 3: plugins/auth/radius/provider.go Authenticate followed by internal/aaa/component.go handleAAARequest
+   (an error from the provider is published as Allowed=false with the error text). *)
+Inductive srv := SrvAccept | SrvReject | SrvOtherCode | SrvNoAnswer.
+Inductive verdict := VAllow | VDeny | VError.
+Definition radius_decide (fallback : bool) (r : srv) : verdict :=
+  if fallback then VDeny
+  else match r with SrvAccept => VAllow | SrvReject => VDeny | SrvOtherCode | SrvNoAnswer => VError end.
+Definition aaa_allowed (fallback : bool) (r : srv) : bool :=
+  match radius_decide fallback r with VAllow => true | _ => false end.
